@@ -184,7 +184,9 @@ var frameRE = regexp.MustCompile(`(?m)^(github\.com/arr-ai/arrai/[^\s(]+(?:\([^)
 // taken inside a deferred recover.
 func PanicSite(stack string) string {
 	// skip frames up to and including the panic call itself
-	if i := strings.Index(stack, "\npanic("); i >= 0 {
+	// (the last one: a deferred function that recovers and re-panics, like
+	// syntax.Compile's, sits on top of the frames of the original panic)
+	if i := strings.LastIndex(stack, "\npanic("); i >= 0 {
 		stack = stack[i+1:]
 	}
 	for _, m := range frameRE.FindAllStringSubmatch(stack, -1) {
